@@ -477,6 +477,23 @@ pub fn c08(ctx: &Ctx) {
 						}
 					},
 				}
+				// a zero-sized input type of unknown length, without type erasure in between
+				rep.evaluations += 1;
+				combos.insert((6, "-".into()));
+				monitor::ops::zst_input_load(&b);
+				match catch(|| (d.zst_val)()) {
+					Err(p) => rep.violation(&format!("decode-panic:zero-sized-input:{}", ops.name), format!("{}: decoding through a zero-sized input type panicked: {p} on {}", ops.name, hex(&b[..b.len().min(48)])), replay_json("C08", ops, &b, &[("stack", jstr("zero-sized input"))])),
+					Ok(v) => {
+						let used = monitor::ops::zst_input_state().0;
+						if v != rv || (v.is_some() && used != rused) {
+							rep.violation(
+								&format!("input-dependence:zero-sized-input:{}", ops.name),
+								format!("{}: {} decodes differently from a zero-sized input type: slice -> {} consuming {}, zero-sized input -> {} consuming {}", ops.name, hex(&b[..b.len().min(48)]), rv.as_ref().map(show_val).unwrap_or("Err".into()), rused, v.as_ref().map(show_val).unwrap_or("Err".into()), used),
+								replay_json("C08", ops, &b, &[("stack", jstr("zero-sized input"))]),
+							);
+						}
+					},
+				}
 				if rep.want_sample() {
 					rep.sample(sample_json(ops, origin, &b, &format!("slice: {} consuming {}", if rv.is_some() { "Ok" } else { "Err" }, rused)));
 				}
